@@ -1121,7 +1121,20 @@ func jsonPath(msg json.RawMessage, p string) json.Marshaler {
 		if json.Unmarshal(msg, &m) != nil {
 			return msg
 		}
-		return m.jsonPath(p)
+		key := p
+		if i := strings.IndexRune(p, '.'); i >= 0 {
+			key = p[:i]
+		}
+		if _, ok := m[key]; ok || len(m) == 0 {
+			return m.jsonPath(p)
+		}
+		// No such member, so this is not a struct but a typed map of
+		// structs.  Like Path, project through every value.
+		result := make(MarshalerMap, len(m))
+		for k, v := range m {
+			result[k] = jsonPath(v, p)
+		}
+		return result
 	case '[':
 		var arr []json.RawMessage
 		if json.Unmarshal(msg, &arr) != nil {
